@@ -144,8 +144,52 @@ def key(inp, detail):
     return f'normalize:{case}'
 
 
+def gen_multi(tier, seed):
+    axes = {'inc+': ([0.5, 1.5, 3.0], 'down'), 'dec+': ([3.0, 1.5, 0.5], 'down'), 'inc-': ([-3.0, -1.5, -0.5], 'up'), 'dec-': ([-0.5, -1.5, -3.0], 'up')}
+    for a, b in itertools.permutations(axes, 2):
+        for p, o in itertools.product(OPTS, OPTS):
+            for order in ((0, 1), (1, 0)):
+                yield {'axes': [axes[a], axes[b]], 'names': [a, b], 'p': p, 'o': o, 'order': order}
+
+
+def test_multi(inp):
+    """Several depth coordinates, each on its own dimension (water column + sediment layers): every one is normalised on its own."""
+    data_vars, coords = {}, {}
+    for k, (z, attr) in enumerate(inp['axes']):
+        n = len(z)
+        coords[f'z{k}'] = xarray.DataArray(numpy.array(z), dims=[f'k{k}'], attrs={'positive': attr, 'axis': 'Z'})
+        data_vars[f'v{k}'] = xarray.DataArray(numpy.arange(n * 2, dtype=float).reshape(n, 2) + 10 * k, dims=[f'k{k}', 'x'])
+    ds = xarray.Dataset(data_vars=data_vars, coords=coords)
+    p, o = inp['p'], inp['o']
+    snap = snapshot(ds)
+    names = [f'z{k}' for k in inp['order']]
+    out = must(lambda: normalize_depth_variables(ds, names, positive_down=p, deep_to_shallow=o), 'normalize_depth_variables (two coordinates)')
+    bad = unchanged(ds, snap)
+    if bad:
+        return bad
+    for k, (z, attr) in enumerate(inp['axes']):
+        z = numpy.array(z)
+        s_in = 1 if attr == 'down' else -1
+        s_out = (1 if p else -1) if p is not None else s_in
+        d_in = s_in * z
+        rev = False if o is None else ((d_in[0] > d_in[1]) != o)
+        perm = numpy.arange(len(z))[::-1] if rev else numpy.arange(len(z))
+        want = s_in * s_out * z[perm]
+        if not numpy.array_equal(out[f'z{k}'].values, want):
+            return (f'coordinate z{k} ({inp["names"][k]}, listed {"first" if inp["order"][0] == k else "second"}) is {out[f"z{k}"].values.tolist()}, '
+                    f'expected {want.tolist()} (positive_down={p}, deep_to_shallow={o})')
+        if not numpy.array_equal(out[f'v{k}'].values, ds[f'v{k}'].values[perm, :]):
+            return f'v{k} no longer attached to its depth'
+        if out[f'z{k}'].attrs.get('positive') != (('down' if p else 'up') if p is not None else attr):
+            return f'positive attribute of z{k} is {out[f"z{k}"].attrs.get("positive")!r}'
+    return None
+
+
 CHECKS = [Check('normalize', gen, test, key=key,
                 space='6 monotonic depth axes (>= 2 levels; all-positive, all-negative, zero-crossing) x positive attr '
                       '{down, up, DOWN, Up, absent} x {dimension coordinate, auxiliary} x bounds {none, variable, coordinate} '
                       'x 9 option pairs, + two coordinates on one dimension; applied twice',
-                bound='enumerated, finite family of axes', exhaustive=False)]
+                bound='enumerated, finite family of axes', exhaustive=False),
+          Check('multi', gen_multi, test_multi, key=lambda i, d: 'normalize:several-coordinates',
+                space='two depth coordinates on separate dimensions, every ordered pair of 4 axis layouts x 9 option pairs x both listing orders',
+                bound='216 cases', exhaustive=False)]
